@@ -257,9 +257,54 @@ def run_models(run: Run, rng, n_models: int, *, ia_bias: float, tag: str):
                 continue
             cases.append(coq_case(desc, t, s, obs))
             keys.append((desc, t, s))
+        # the same model after its plain parameters were updated through the public API (the cache was filled
+        # by the queries above): it is again "a well-formed model", judged against the updated description
+        plain = [n for n, v in desc["par"] if v[0] == "plain"]
+        if plain:
+            ups = [(n, rng.randint(-3, 3)) for n in rng.sample(plain, min(len(plain), rng.choice([1, 1, 2])))]
+            desc2 = apply_updates(desc, ups)
+            orc2 = Oracle(desc2)
+            t2, s2 = rng.choice(states)
+            try:
+                orc2.initial_env()
+                st2 = orc2.initial_conditions() if s2 is None else s2
+                orc2.rhs(st2, t2)
+                for k in orc2.all_names():
+                    orc2.value(k, st2, t2)
+            except Unbounded:
+                dist["discarded_unbounded"] += 1
+            else:
+                dist["after_update"] = dist.get("after_update", 0) + 1
+                run.count_case((tag, "upd", repr(desc), repr(ups), t2, repr(s2)), nontrivial=ncomp >= 3)
+                try:
+                    for n, v in ups:
+                        if rng.random() < 0.5:
+                            m.update_parameter(nm(n), float(v))
+                        else:
+                            m.update_parameters({nm(n): float(v)})
+                    obs = observe(m, desc2, t2, s2)
+                    bad = judge(desc2, orc2, t2, s2, obs)
+                except Exception as e:  # noqa: BLE001
+                    obs = None
+                    bad = f"well-formed model raised {type(e).__name__}: {e}"
+                if bad:
+                    if n_viol < 4:
+                        n_viol += 1
+                        run.violation(f"C01 after update_parameter {[(nm(n), v) for n, v in ups]} (queried before): {bad}",
+                                      {"kind": "c01", "desc": desc, "time": t2, "state": s2, "updates": ups})
+                else:
+                    cases.append(coq_case(desc2, t2, s2, obs))
+                    keys.append((desc2, t2, s2))
         if i == 0:
             run.sample({"model": desc, "states": states})
     return cases, keys, dist
+
+
+def apply_updates(desc, ups):
+    d2 = {k: list(v) for k, v in desc.items()}
+    new = dict(ups)
+    d2["par"] = [(n, ("plain", new[n])) if n in new else (n, v) for n, v in desc["par"]]
+    return d2
 
 
 def check(run: Run) -> None:
@@ -304,9 +349,15 @@ def replay(rep: dict) -> int:
     r = rep["replay"]
     desc = {k: [_tup(x) for x in v] for k, v in r["desc"].items()}
     state = None if r["state"] is None else {int(k): v for k, v in r["state"].items()}
-    orc = Oracle(desc)
+    ups = [tuple(u) for u in r.get("updates", [])]
     try:
         m = modelgen.build(desc)
+        if ups:
+            observe(m, desc, 0, None)  # fill the cache first, as the run did
+            for n, v in ups:
+                m.update_parameter(nm(n), float(v))
+            desc = apply_updates(desc, ups)
+        orc = Oracle(desc)
         bad = judge(desc, orc, r["time"], state, observe(m, desc, r["time"], state))
     except Exception as e:  # noqa: BLE001
         bad = f"raised {type(e).__name__}: {e}"
